@@ -28,8 +28,10 @@ static void *vpd_memset(void *p, int c, size_t n);
 #define memset(p, c, n) vpd_memset((p), (c), (n))
 /* likewise memcpy(&typed, &typed, sizeof(T)): a byte-loop copy into a member turns the whole enclosing object into a
  * byte_update expression (function pointers stored in it are then no constants: every candidate target is explored) */
-static void *vpd_memcpy(void *d, const void *s, size_t n);
+static void *vpd_memcpy(void *d, const void *s, size_t n);       /* literal size: typed copy where the size names a structure */
+static void *vpd_memcpy_var(void *d, const void *s, size_t n);   /* computed size: byte loop only (with a symbolic n every typed
+                                                                   * branch would be explored: 3.6 M variables for a 6-byte name) */
 #undef memcpy
-#define memcpy(d, s, n) vpd_memcpy((d), (s), (n))
+#define memcpy(d, s, n) (__builtin_constant_p(n) ? vpd_memcpy((d), (s), (n)) : vpd_memcpy_var((d), (s), (n)))
 #endif
 #endif
